@@ -137,10 +137,20 @@ def _accessor(n):
 
 
 def lets_of(body):
+    """hid -> initialiser for `let x = e;`, and component-wise for `let (a, b) = (e1, e2);`"""
     out = {}
+
+    def bind(pat, init):
+        if pat.get("k") == "bind":
+            out[pat["hid"]] = init
+        elif pat.get("k") == "tuple" and init is not None:
+            i2 = ir.unparen(init)
+            if i2.get("k") == "tup" and len(i2.get("es", ())) == len(pat.get("ps", ())):
+                for p_, e_ in zip(pat["ps"], i2["es"]):
+                    bind(p_, e_)
     for n in ir.walk_nodes(body["body"]):
-        if n.get("k") == "let" and "init" in n and n["pat"].get("k") == "bind":
-            out[n["pat"]["hid"]] = n["init"]
+        if n.get("k") == "let" and "init" in n:
+            bind(n["pat"], n["init"])
     return out
 
 
